@@ -206,14 +206,36 @@ func ReadFrom(r io.Reader) (idx Index, err error) {
 		} else if _, exists := idx[rec[nameField]]; exists {
 			return nil, parseError(line, 0, ErrNonUnique)
 		}
-		idx[rec[nameField]] = Record{
+		r := Record{
 			Name:         rec[nameField],
 			Length:       mustAtoi(rec, lengthField, line),
 			Start:        mustAtoi64(rec, startField, line),
 			BasesPerLine: mustAtoi(rec, basesField, line),
 			BytesPerLine: mustAtoi(rec, bytesField, line),
 		}
+		if !r.isValid() {
+			return nil, parseError(line, 0, ErrInvalidRecord)
+		}
+		idx[rec[nameField]] = r
 	}
+}
+
+// ErrInvalidRecord is returned by ReadFrom for an index record whose
+// fields do not describe a sequence: negative values, fewer bytes than
+// bases per line, bases without a line length, or offsets that do not
+// fit in an int64.
+var ErrInvalidRecord = errors.New("invalid index record")
+
+func (r Record) isValid() bool {
+	if r.Length < 0 || r.Start < 0 || r.BasesPerLine < 0 || r.BytesPerLine < r.BasesPerLine {
+		return false
+	}
+	if r.BasesPerLine == 0 {
+		return r.Length == 0
+	}
+	const maxInt64 = 1<<63 - 1
+	lines := int64(r.Length / r.BasesPerLine)
+	return lines <= (maxInt64-r.Start-int64(r.BasesPerLine))/int64(r.BytesPerLine)
 }
 
 func parseError(line, column int, err error) *csv.ParseError {
